@@ -156,6 +156,25 @@ def build_session(mode, tok):
                     t2.update_inputs(p)
             t = t2
         return t, li
+    if mode in FORM_MODES:
+        # inputs described WITHOUT their keys (address / public hash / locking script / nothing); keys come with sign(keys)
+        kw = dict(locktime=lock, witness_type=wt, network=net)
+        if ver:
+            kw['version'] = ver
+        if mode == 'fr':       # add_input has no redeemscript argument: Input objects handed to the constructor
+            ins = [Input(prev_txid=i['prev'][::-1].hex(), output_n=i['vout'], sequence=i['seq'], index_n=p, value=i['value'],
+                         network=net, **form_args(i, mode, net)) for p, i in enumerate(li)]
+            outs = [Output(v, lock_script=sc, network=net) for v, sc in lo]
+            if ver:
+                kw['version'] = ver.to_bytes(4, 'big')
+            return Transaction(ins, outs, fee=0, **kw), li
+        t = Transaction(**kw)
+        for i in li:
+            t.add_input(prev_txid=i['prev'][::-1].hex(), output_n=i['vout'], sequence=i['seq'], index_n=i['idx'],
+                        value=i['value'], **form_args(i, mode, net))
+        for v, sc in lo:
+            t.add_output(v, lock_script=sc)
+        return t, li
     if mode == 'ctor':
         ins = [Input(prev_txid=i['prev'][::-1].hex(), output_n=i['vout'], sequence=i['seq'], index_n=p, value=i['value'],
                      network=net, **kind_args(i, False, priv=True)) for p, i in enumerate(li)]
@@ -165,6 +184,80 @@ def build_session(mode, tok):
             kw['version'] = ver.to_bytes(4, 'big')      # the bytes spelling of the argument (what parse passes)
         return Transaction(ins, outs, **kw), li
     raise ValueError(mode)
+
+
+FORM_MODES = ('fn', 'fh', 'fl', 'fa', 'fla', 'fu', 'fr')
+
+
+def _h160(b):
+    return hashlib.new('ripemd160', hashlib.sha256(b).digest()).digest()
+
+
+def _push(d):
+    n = len(d)
+    return (bytes([n]) if n < 76 else b'\x4c' + bytes([n]) if n < 256 else b'\x4d' + n.to_bytes(2, 'little')) + d
+
+
+def form_args(i, mode, net):
+    base = kind_args(i, False)
+    k = i['kind']
+    if k not in ('p2pkh', 'p2pk', 'p2wpkh', 'p2sh_p2wpkh'):
+        # multisig kinds: the script is made of the (public) keys; fr: handed over as redeemscript only (Input(...)),
+        # fu (P2SH): as the unsigned unlocking script OP_0 <redeem script>
+        if mode in ('fr', 'fu') and k != 'multisig':
+            red = Script(script_types=['multisig'], keys=[bytes.fromhex(x) for x in i['keys']], sigs_required=i['m']).serialize()
+            args = {a: v for a, v in base.items() if a != 'keys'}
+            if mode == 'fr':
+                args['redeemscript'] = red
+                return args
+            if k == 'p2sh_multisig':
+                args['unlocking_script'] = b'\x00' + _push(red)
+                return args
+        return base
+    args = {a: v for a, v in base.items() if a != 'keys'}
+    if k == 'p2sh_p2wpkh':
+        args['witness_type'] = 'p2sh-segwit'
+    pubk = bytes.fromhex(i['keys'][0])
+    h = _h160(pubk)
+    if mode == 'fn' or k == 'p2pk':
+        return args
+    lock = {'p2pkh': b'\x76\xa9\x14' + h + b'\x88\xac', 'p2wpkh': b'\x00\x14' + h,
+            'p2sh_p2wpkh': b'\xa9\x14' + _h160(b'\x00\x14' + h) + b'\x87'}[k]
+    if mode == 'fh':
+        args['public_hash'] = h
+    if mode in ('fl', 'fla'):
+        args['locking_script'] = lock
+    if mode in ('fa', 'fla'):
+        from bitcoinlib.keys import Address
+        if k == 'p2pkh':
+            a = Address(hashed_data=h, script_type='p2pkh', encoding='base58', network=net)
+        elif k == 'p2wpkh':
+            a = Address(hashed_data=h, script_type='p2wpkh', encoding='bech32', network=net)
+        else:
+            a = Address(hashed_data=_h160(b'\x00\x14' + h), script_type='p2sh', encoding='base58', network=net)
+        args['address'] = a.address
+    return args
+
+
+def key_form(pubhex, form, net):
+    k = PRIV[pubhex]
+    if form == 'h':
+        return k.private_hex if k.compressed else k
+    if form == 'b':
+        return k.private_byte if k.compressed else k
+    if form == 'w':
+        return Key(k.private_byte, compressed=k.compressed, network=net).wif()
+    if form == 'd':
+        from bitcoinlib.keys import HDKey
+        return HDKey(key=k.private_byte, chain=b'\x01' * 32, compressed=k.compressed, network=net)
+    return k
+
+
+def sign_keys_form(t, li, form):
+    for p, i in enumerate(li):
+        n = 1 if i['kind'] in ('p2pkh', 'p2pk', 'p2wpkh', 'p2sh_p2wpkh') else i['m']
+        ks = [key_form(x, form, t.network.name) for x in i['keys'][:n]]
+        t.sign(keys=(ks[0] if len(ks) == 1 and form != '' else ks), index_n=p)
 
 
 class _Shuffle:
@@ -228,6 +321,8 @@ def session_op(t, li, mode, op):
             t.sign(replace_signatures=True)
         elif k == 'signk':
             sign_keys(t, li, False)
+        elif k in ('signkh', 'signkb', 'signkw', 'signkd'):
+            sign_keys_form(t, li, k[-1])
         elif k == 'rsignk':
             sign_keys(t, li, True)
         elif k == 'sau':
